@@ -186,6 +186,11 @@ impl<F: Float + SampleUniform + std::fmt::Debug, D: Hash + Copy, H: Hasher + Def
     fn densify(&mut self) -> anyhow::Result<()> {
         // now we run densification
         let m: usize = self.hsketch.len();
+        if self.nb_empty as usize == m {
+            return Err(anyhow::anyhow!(
+                "OptDensMinHash: nothing was sketched, cannot densify"
+            ));
+        }
         let mut nbpass = 1u64;
         let inrange = Uniform::<usize>::new(0, m).unwrap();
         for k in 0..m {
@@ -371,6 +376,11 @@ impl<F: Float + SampleUniform + std::fmt::Debug, D: Hash + Copy, H: Hasher + Def
     fn densify(&mut self) -> anyhow::Result<()> {
         // now we run densification
         let m: usize = self.hsketch.len();
+        if self.nb_empty as usize == m {
+            return Err(anyhow::anyhow!(
+                "RevOptDensMinHash: nothing was sketched, cannot densify"
+            ));
+        }
         let unif_m = Uniform::<usize>::new(0, m).unwrap();
         let mut pass: u64 = 1;
         while self.nb_empty > 0 {
